@@ -17,8 +17,27 @@ pub mod synth {
     #[unit(Beta, "be")]
     /// quantity without reference unit
     pub struct Tri {}
+
+    #[quantity]
+    #[unit(Cent_per_Minute, "c/min")]
+    #[unit(apple, "ap")]
+    #[unit(Cent_Total, "ct")]
+    #[unit(Banana, "bn", "second by name")]
+    /// no reference unit; name order ('Banana' < 'Cent Total' < 'Cent per Minute' < 'apple') differs from identifier order
+    pub struct Tariff {}
+
+    #[quantity]
+    #[ref_unit(Grain, "gr", NONE, "reference unit")]
+    #[unit(Milligrain, "mgr", MILLI, 0.001)]
+    #[unit(Scruple, "sc", 20)]
+    #[unit(Dram, "dr", 60.)]
+    /// small quantity with reference unit
+    pub struct Dose {}
 }
 """
 
+DOSE = QtySpec("crate", "synth", "Dose", "Grain", [U("Grain", "gr", "NONE", 1), U("Milligrain", "mgr", "MILLI", F(1, 1000)), U("Scruple", "sc", None, 20), U("Dram", "dr", None, 60)])
+
 PILE = QtySpec("crate", "synth", "Pile", None, [U("Pebble", "pb", None, None)])
 TRI = QtySpec("crate", "synth", "Tri", None, [U("Gamma_Ray", "ga", None, None), U("Alpha", "al", None, None), U("Beta", "be", None, None)])
+TARIFF = QtySpec("crate", "synth", "Tariff", None, [U("Cent_per_Minute", "c/min", None, None), U("apple", "ap", None, None), U("Cent_Total", "ct", None, None), U("Banana", "bn", None, None)])
